@@ -557,9 +557,18 @@ theorem loop_wt (g : Grammar) (hwf : altsWF g) (order : List Ty)
     (hreg : orderRegistered g order = true) (hann : annDefaultsOK order = true) (limit : Nat) :
     ∀ (fuel : Nat) (st : Stacks) (failures : Nat) (s s' : SynSt) (v : Val), Inv g st →
       loop g order limit fuel st failures s = .ok v s' → wtS g (.cls g.spec.start) v = true
-  | 0, st, failures, s, s', v, _, h => by
+  | 0, st, failures, s, s', v, hinv, h => by
     rw [loop] at h
-    exact absurd h (throwE_not_ok _ _ _ _)
+    cases hg : getStack (.cls g.spec.start) st with
+    | cons x rest =>
+      rw [hg] at h
+      simp only at h
+      rw [SynM.pure_ok] at h
+      obtain ⟨rfl, _⟩ := h
+      exact hinv _ x (by rw [hg]; exact List.mem_cons_self)
+    | nil =>
+      rw [hg] at h
+      exact absurd h (throwE_not_ok _ _ _ _)
   | fuel + 1, st, failures, s, s', v, hinv, h => by
     rw [loop] at h
     cases hg : getStack (.cls g.spec.start) st with
@@ -614,7 +623,9 @@ theorem loop_respects (hR : StepRel R) (g : Grammar) (order : List Ty) (limit : 
     ∀ (fuel : Nat) (st : Stacks) (failures : Nat), Respects R (loop g order limit fuel st failures)
   | 0, st, failures => by
     rw [loop]
-    exact hR.closed0.throwE _
+    cases getStack (.cls g.spec.start) st with
+    | cons x rest => exact hR.closed0.pure _
+    | nil => exact hR.closed0.throwE _
   | fuel + 1, st, failures => by
     have h0 := hR.closed0
     rw [loop]
@@ -797,7 +808,7 @@ theorem chooseTarget_safe (order : List Ty) (E : Err → Prop)
 
 /-- the exceptions of the whole loop -/
 def LoopErr (g : Grammar) (order : List Ty) (e : Err) : Prop :=
-  e = .library ∨ e = .foreign "fuel" ∨
+  e = .library ∨
   (orderProductive g order = false ∧
     (e = .foreign "KeyError" ∨ e = .foreign "AssertionError" ∨ e = .foreign "IndexError"))
 
@@ -814,7 +825,9 @@ theorem loop_safe (g : Grammar) (order : List Ty) (limit : Nat) :
       Safe (LoopErr g order) (loop g order limit fuel st failures)
   | 0, st, failures => by
     rw [loop]
-    exact Safe.throwE _ _ (Or.inr (Or.inl rfl))
+    cases getStack (.cls g.spec.start) st with
+    | cons x rest => exact Safe.pure _ _
+    | nil => exact Safe.throwE _ _ (Or.inl rfl)
   | fuel + 1, st, failures => by
     rw [loop]
     cases getStack (.cls g.spec.start) st with
@@ -826,7 +839,7 @@ theorem loop_safe (g : Grammar) (order : List Ty) (limit : Nat) :
       · intro s hs
         rw [SynM.bind_def]
         have h1 := chooseTarget_safe order (LoopErr g order)
-          (fun h => Or.inr (Or.inr ⟨by simp [orderProductive, h], Or.inr (Or.inr rfl)⟩)) s hs
+          (fun h => Or.inr ⟨by simp [orderProductive, h], Or.inr (Or.inr rfl)⟩) s hs
         cases hc : chooseTarget order s with
         | err e s1 => rw [hc] at h1; exact h1
         | ok target s1 =>
@@ -836,7 +849,7 @@ theorem loop_safe (g : Grammar) (order : List Ty) (limit : Nat) :
           refine Safe.bind _ _ _ (Safe.mono _ ?_ (step_safe g target st))
             (fun out => loop_safe g order limit fuel out.stacks _) s1 h1
           intro e he
-          refine Or.inr (Or.inr ⟨?_, ?_⟩)
+          refine Or.inr ⟨?_, ?_⟩
           · unfold orderProductive
             rw [Bool.and_eq_false_iff]; right
             rw [List.all_eq_false]
